@@ -148,8 +148,17 @@ def r_maskpoint(idx, rep, rule="R-MASKPOINT"):
         for st in iter_stmts(f.node.body):
             if isinstance(st, ast.Assign) and isinstance(st.targets[0], ast.Name):
                 v = st.value
-                if dot_args(v) is not None or (isinstance(v, ast.BinOp) and all(isinstance(n, (ast.Name, ast.BinOp, ast.Constant, ast.UnaryOp)) and
-                                                                                (not isinstance(n, ast.Name) or n.id in scal) for n in ast.walk(v) if not isinstance(n, (ast.operator, ast.unaryop, ast.Load)))):
+                def is_scalar(e):
+                    if dot_args(e) is not None or isinstance(e, ast.Constant):
+                        return True
+                    if isinstance(e, ast.Name):
+                        return e.id in scal
+                    if isinstance(e, ast.UnaryOp):
+                        return is_scalar(e.operand)
+                    if isinstance(e, ast.BinOp):
+                        return is_scalar(e.left) and is_scalar(e.right)
+                    return False
+                if not isinstance(v, (ast.Constant, ast.Name)) and is_scalar(v):
                     scal.add(st.targets[0].id)
             if isinstance(st, ast.Assign) and isinstance(st.targets[0], ast.Tuple) and isinstance(st.value, ast.Call) and "barycentric" in (call_name(st.value) or ""):
                 for e in st.targets[0].elts:
